@@ -195,7 +195,9 @@ fn render_report(
 }
 
 fn first_line(s: &str) -> String {
-    s.lines().next().unwrap_or("").chars().take(100).collect()
+    // messages embed pretty-printed types over several lines: flatten whitespace
+    let flat: Vec<&str> = s.split_whitespace().collect();
+    flat.join(" ").chars().take(220).collect()
 }
 
 /// Strip ANSI colour sequences.
@@ -382,4 +384,122 @@ pub fn front_end(root: &Path) -> Result<Front, PanicInfo> {
         let result = session.analyze(root);
         summarize(&session, &result)
     })
+}
+
+/* ------------------------------------------------------------------------- */
+/* running with the interpreter                                              */
+/* ------------------------------------------------------------------------- */
+
+use zydeco_dynamics::{BuiltinRootLinker, Eval, ProgKont, Runtime, Step};
+use zydeco_session::ExecutableProgram;
+
+#[derive(Clone, Debug, PartialEq, Eq)]
+pub enum RunEnd {
+    Exit(i32),
+    /// the root returned a value (not an OS program)
+    Ret(String),
+    /// the one defined arithmetic trap
+    Trap(String),
+    /// host I/O failure of a legacy stdio role (allowed by C01's statement)
+    HostIo(String),
+    /// any other unwind while stepping: an undefined machine state
+    Stuck { msg: String, file: String, line: u32 },
+    OutOfFuel,
+    /// clean rejection before any step ran
+    LinkError(String),
+}
+
+#[derive(Clone, Debug)]
+pub struct RunResult {
+    pub stdout: Vec<u8>,
+    pub end: RunEnd,
+    pub steps: u64,
+}
+
+pub fn classify_step_panic(p: &PanicInfo) -> RunEnd {
+    let m = &p.msg;
+    if m.contains("attempt to divide by zero")
+        || m.contains("attempt to calculate the remainder with a divisor of zero")
+    {
+        RunEnd::Trap(m.clone())
+    } else if m.contains("legacy standard-") {
+        RunEnd::HostIo(m.clone())
+    } else {
+        RunEnd::Stuck { msg: m.clone(), file: p.file.clone(), line: p.line }
+    }
+}
+
+/// Run an executable one public `Eval::step` at a time under a fuel bound.
+pub fn run_executable(exe: ExecutableProgram, stdin: &[u8], args: &[String], fuel: u64) -> RunResult {
+    let mut out: Vec<u8> = Vec::new();
+    let mut steps = 0u64;
+    let linked = catch(|| {
+        BuiltinRootLinker { scoped: exe.scoped, statics: exe.statics, root: exe.root, signature: exe.signature }
+            .run()
+    });
+    let dynamics = match linked {
+        | Ok(Ok(d)) => d,
+        | Ok(Err(e)) => return RunResult { stdout: out, end: RunEnd::LinkError(format!("{e}")), steps },
+        | Err(p) => {
+            return RunResult {
+                stdout: out,
+                end: RunEnd::Stuck { msg: format!("link: {}", p.msg), file: p.file, line: p.line },
+                steps,
+            };
+        }
+    };
+    let end = {
+        let mut input = std::io::Cursor::new(stdin.to_vec());
+        let out_ref = &mut out;
+        let steps_ref = &mut steps;
+        let r = catch(move || {
+            let mut rt = Runtime::new(&mut input, out_ref, args, dynamics);
+            let mut comp = rt.program.root.as_ref().clone();
+            loop {
+                if *steps_ref >= fuel {
+                    return None;
+                }
+                *steps_ref += 1;
+                match comp.step(&mut rt) {
+                    | Step::Done(k) => return Some(k),
+                    | Step::Step(next) => comp = next,
+                }
+            }
+        });
+        match r {
+            | Ok(Some(ProgKont::ExitCode(c))) => RunEnd::Exit(c),
+            | Ok(Some(ProgKont::Ret(v))) => RunEnd::Ret(format!("{v:?}").chars().take(200).collect()),
+            | Ok(Some(ProgKont::Dry)) => RunEnd::Ret("dry".into()),
+            | Ok(None) => RunEnd::OutOfFuel,
+            | Err(p) => classify_step_panic(&p),
+        }
+    };
+    RunResult { stdout: out, end, steps }
+}
+
+/// Analyse a root and, when it is an accepted executable, hand it out.
+pub enum Analyzed {
+    Executable(ExecutableProgram, Front),
+    /// accepted but not an executable computation
+    AcceptedOther(Front, String),
+    NotAccepted(Front),
+    Panic(PanicInfo),
+}
+
+pub fn analyze_executable(session: &CompilerSession, root: &Path) -> Analyzed {
+    let r = catch(|| {
+        let result = session.analyze(root);
+        let front = summarize(session, &result);
+        match (&front.verdict, result) {
+            | (Verdict::Checked(_), Ok(analysis)) => match session.executable_program(&analysis) {
+                | Ok(exe) => Analyzed::Executable(exe, front),
+                | Err(e) => Analyzed::AcceptedOther(front, format!("{e}")),
+            },
+            | _ => Analyzed::NotAccepted(front),
+        }
+    });
+    match r {
+        | Ok(a) => a,
+        | Err(p) => Analyzed::Panic(p),
+    }
 }
